@@ -200,6 +200,9 @@ func init() {
 
 var varFamilies [][2]int // [from,to) ranges of varRules per rule family
 
+// the first dtTriples rules of family 0 are datetime='a,b,c' for every separator triple; varVals[dtValFrom+i] is valid for rule dtRuleFrom+i
+var dtRuleFrom, dtValFrom, dtTriples int
+
 func init() {
 	add := func(rules ...[]string) {
 		from := len(varRules)
@@ -240,20 +243,17 @@ func init() {
 	add(one("re='^a,b$'", "re='^a+$'", "re='^a{1,2}$'", "re='^[a-c]+$'", "re='^\\d+$'", "re='^\\d{1,3}$'", "re='('", "re='^x{0,3}$'|pattern",
 		"phone", "email", "idcard", "ip", "ipv4", "ipv6", "json", "required", "exist", "either=1", "botheq=1", "file", "dir")...)
 
-	dates := []string{}
+	// one value per separator triple, in the order of the datetime rules above: value i is a valid date-time for rule i
+	dtValFrom = len(varVals)
 	for _, a := range seps {
 		for _, b := range seps {
-			c := b
-			if a == ":" {
-				c = "-"
+			for _, c := range seps {
+				d := "2023" + a + "01" + a + "02" + b + "10" + c + "00" + c + "00"
+				varVals = append(varVals, func() interface{} { return d })
 			}
-			dates = append(dates, "2023"+a+"01"+a+"02"+b+"10"+c+"00"+c+"00")
 		}
 	}
-	for _, d := range dates {
-		d := d
-		varVals = append(varVals, func() interface{} { return d })
-	}
+	dtRuleFrom, dtTriples = varFamilies[0][0], len(seps)*len(seps)*len(seps)
 	for _, x := range []interface{}{"2023-01-02", "2023/01/02", "2023.01", "2023 01", "2023", "1,2,3", "1-2-3", "1/2/x", "1 2 3", "a", "ab", "abc", "abxyz", "bc", "c",
 		"12", "23", "3", "aaa", "a,b", "10.0.0.1", "::1", "a@b.cn", "13812345678", "110101199003071234", `{"a":1}`, `{"a":`,
 		0, 1, 2, 3, 5, 10, 100, 101, -1, 2.5, uint8(3), int64(10), []int{1, 2, 3}, []int{1, 1}, []string{"a", "b", "c"}, []string{"1", "2"}, []float64{1.5, 1.5}, true} {
